@@ -2192,7 +2192,8 @@ class StateEngine(object):
                         return next
 
                 def asl_choice_BooleanEquals(value):
-                    return next_if(variable, operator.eq, value, bool)
+                    if not path_match_failed:  # variable is False if missing
+                        return next_if(variable, operator.eq, value, bool)
 
                 def asl_choice_NumericEquals(value):
                     return next_if_numeric(variable, operator.eq, value)
